@@ -10,7 +10,8 @@ func init() {
 			{Name: "H_C13_probe_th", Tier: "quick", What: "nlist=2, n=2 concrete vectors in every assignment pattern, threshold and query symbolic, nprobes in {1,2}", Covers: []string{"full-probe", "partial-probe"}},
 			{Name: "H_C13_probe_ops", Tier: "quick", What: "nlist=2, n=3 concrete vectors in every assignment pattern (empty clusters occur), none|Remove|Remove+Flush, id filter, k symbolic, nprobes in {1, 0}", Covers: []string{"full-probe", "partial-probe"}},
 			{Name: "H_C13_untrained", Tier: "quick", What: "Add / search before training and Train with too few vectors are errors", Covers: []string{"ran"}},
-			{Name: "H_C13_ivf_t", Tier: "thorough", What: "nlist=2, n=2, full product: symbolic vectors, k, threshold, nprobes, op, filter", Covers: []string{"full-probe", "partial-probe"}},
+			{Name: "H_C13_ivf_t", Tier: "thorough", What: "nlist=2, n=2: symbolic stored vectors x symbolic k x symbolic nprobes x id filter (no threshold, no removals)", Covers: []string{"full-probe", "partial-probe"}},
+			{Name: "H_C13_ivf_t_th", Tier: "thorough", What: "nlist=2, n=2: symbolic stored vectors x symbolic threshold, nprobes in {1, all}", Covers: []string{"full-probe", "partial-probe"}},
 			{Name: "H_C13_ivf_t3", Tier: "thorough", What: "nlist=3, n=3 symbolic, nprobes in {1,2,3}", Covers: []string{"full-probe", "partial-probe"}},
 			{Name: "H_C13_ivf_d2", Tier: "thorough", What: "d=2", Covers: []string{"full-probe", "partial-probe"}},
 		},
